@@ -344,6 +344,20 @@ unsafe fn do_open(which: u8, dirfd: c_int, path: *const c_char, flags: c_int, mo
     fd
 }
 
+/// Thread creation is observed so that the single-threaded compiler (the shipped one) never pays for asking the kernel
+/// how many threads it has: as long as this was never called the answer is 1.
+#[no_mangle]
+pub unsafe extern "C" fn pthread_create(
+    thread: *mut libc::pthread_t,
+    attr: *const libc::pthread_attr_t,
+    start: extern "C" fn(*mut libc::c_void) -> *mut libc::c_void,
+    arg: *mut libc::c_void,
+) -> c_int {
+    raw::THREADS_CREATED.fetch_add(1, SeqCst);
+    let f = real!(pthread_create: fn(*mut libc::pthread_t, *const libc::pthread_attr_t, extern "C" fn(*mut libc::c_void) -> *mut libc::c_void, *mut libc::c_void) -> c_int);
+    f(thread, attr, start, arg)
+}
+
 #[no_mangle]
 pub unsafe extern "C" fn open(path: *const c_char, flags: c_int, mode: mode_t) -> c_int {
     do_open(0, libc::AT_FDCWD, path, flags, mode)
